@@ -28,7 +28,8 @@ RULE = ("rank programs on the real code: (a) handler/swapper construction + all 
         "redirects; (b) Grid.getMin/getMax in every branch (whole grid, one or two fixed axes, index owned by some/no rank, "
         "complex data, plot-only rank with an empty block) and getBlockFromDict/getBlockForFig with ranges inside, straddling "
         "and outside the blocks; (c) DiagnosticCollector.collect/reduce; (d) setupSave with folder given/not given, "
-        "existing/new; (e) setupCylindricalGrid and setupFromFile with plotThread=True; (f) the real driver for one step.  "
+        "existing/new; (e) setupCylindricalGrid and setupFromFile with plotThread=True; (f) the real driver for one step; (g) every test of the repository marked 'parallel' in test_layout, test_grid, test_norms, test_energy, "
+        "test_setup, test_saveTools (never collected by the pinned suite) run as a rank program on 2-6 simulated ranks.  "
         "Arrival orders: depth-first enumeration of all orders (bounded at 3000 per program) for 2-3 ranks, 8 (quick) / 64 "
         "(thorough) random seeds otherwise.  Hash seeds: construction + all transposes of layout sets with many tied shortest "
         "routes re-run in fresh interpreters with PYTHONHASHSEED in 0..7 (quick) / 0..47 (thorough); per-rank traces, route "
@@ -38,6 +39,8 @@ ASSUMPTIONS = ["simulated MPI: matching rules never stricter than the MPI standa
 REQUIRED_EVENTS = {"worlds_run": 1, "enumerated_programs": 1, "hash_seeds_compared": 1, "empty_block_rank_runs": 1, "schedules_exhausted": 1, "tied_route_pairs": 1}
 CASE_TIMEOUT = {"quick": 900, "thorough": 3000}
 
+UPSTREAM = ["pygyro.model.test_layout", "pygyro.model.test_grid", "pygyro.diagnostics.test_norms", "pygyro.diagnostics.test_energy",
+            "pygyro.initialisation.test_setup", "pygyro.utilities.test_saveTools"]
 PHYS = {'flux_surface': [0, 3, 1, 2], 'v_parallel': [0, 2, 1, 3], 'poloidal': [3, 2, 1, 0]}
 
 
@@ -57,6 +60,11 @@ def gen_cases(tier, seed):
             cases.append({"kind": "random", "work": work, "P": P, "nseeds": nseeds, "seed": rng.randrange(1 << 30), "cost": 500 * P})
     for P in ((2, 3) if tier == "quick" else (2, 3, 4, 6)):
         cases.append({"kind": "random", "work": "driver", "P": P, "nseeds": 2 if tier == "quick" else 8, "seed": rng.randrange(1 << 30), "cost": 6000})
+    # (g) the repository's own MPI-marked tests (never collected by the pinned suite) as rank programs
+    for mod in UPSTREAM:
+        for P in ((2, 3) if tier == "quick" else (2, 3, 4, 6)):
+            cases.append({"kind": "upstream", "module": mod, "P": P, "nseeds": 1 if tier == "quick" else 4, "max_items": 6 if tier == "quick" else 10000,
+                          "seed": rng.randrange(1 << 30), "cost": 2000})
     # hash seeds
     for k in range(6 if tier == "quick" else 60):
         cases.append({"kind": "hash", "nhash": 8 if tier == "quick" else 48, "seed": rng.randrange(1 << 30), "P": rng.choice([2, 3, 4]), "cost": 4000})
@@ -240,7 +248,95 @@ def run_case(case):
         return _enum(case)
     if case["kind"] == "random":
         return _random(case)
+    if case["kind"] == "upstream":
+        return _upstream(case)
     return _hash(case)
+
+
+def _expand_marks(fn):
+    """parameter sets of a test function marked 'parallel' (pytest marks read directly; no pytest run)"""
+    marks = list(getattr(fn, "pytestmark", []))
+    if not any(m.name == "parallel" for m in marks):
+        return []
+    combos = [{}]
+    for m in marks:
+        if m.name != "parametrize":
+            continue
+        names = [n.strip() for n in m.args[0].split(",")] if isinstance(m.args[0], str) else list(m.args[0])
+        new = []
+        for c in combos:
+            for v in m.args[1]:
+                v = getattr(v, "values", v)
+                vals = tuple(v) if len(names) > 1 else ((v[0],) if isinstance(v, tuple) and hasattr(v, "_fields") else (v,))
+                new.append(dict(c, **dict(zip(names, vals))))
+        combos = new
+    return combos
+
+
+def _upstream(case):
+    """The repository's own multi-rank tests run as rank programs on P simulated ranks under seeded arrival
+    orders.  Only what the simulated MPI layer itself reports (mismatch, deadlock, unmatched rendezvous) is a
+    C06 verdict; an assertion of the upstream test failing is reported as inconclusive, with the message."""
+    import importlib
+    from mpi4py import MPI
+    from vlib import simh5
+    simh5.install()
+    random.seed(case["seed"])
+    np.random.seed(case["seed"] % (1 << 31))
+    mod = importlib.import_module(case["module"])
+    paths.assert_repo(mod)
+    P = case["P"]
+    items = []
+    for name in sorted(dir(mod)):
+        fn = getattr(mod, name)
+        if name.startswith("test_") and callable(fn):
+            for params in _expand_marks(fn):
+                items.append((name, fn, params))
+    rng = random.Random(case["seed"])
+    if len(items) > case["max_items"]:
+        items = rng.sample(items, case["max_items"])
+    short = case["module"].split(".")[-1]
+    what = "upstream-%s/P%d/random" % (short, P)
+    ev = {"worlds_run": 0, "enumerated_programs": 0, "schedules_exhausted": 0, "hash_seeds_compared": 0, "empty_block_rank_runs": 0, "upstream_tests_run": 0, "upstream_assertion_failures": 0}
+    if not items:
+        return result(SKIP, what="no test marked 'parallel' found in %s" % case["module"])
+    tmp = tempfile.mkdtemp(prefix="verif_c06u_")
+    old = os.getcwd()
+    sigs = set()
+    notes = []
+    try:
+        for name, fn, params in items:
+            for s in range(case["nseeds"]):
+                d = os.path.join(tmp, "w")
+                shutil.rmtree(d, ignore_errors=True)
+                os.makedirs(d)
+                os.chdir(d)
+                w = MPI.run_world(P, lambda rank, fn=fn, params=params: fn(**params), schedule="random" if s else "reversed", seed=case["seed"] + s, timeout=600)
+                os.chdir(old)
+                ev["worlds_run"] += 1
+                ev["upstream_tests_run"] += 1
+                for k, v in w.events.items():
+                    ev[k] = ev.get(k, 0) + v
+                err = w.first_error()
+                label = "%s/%s%s" % (what, name, ("[%s]" % ",".join("%s=%r" % kv for kv in sorted(params.items()))) if params else "")
+                if err is not None and not isinstance(err[1], MPI.SimError):
+                    ev["upstream_assertion_failures"] += 1
+                    notes.append("%s: rank %d: %s: %s" % (label, err[0], type(err[1]).__name__, str(err[1])[:300]))
+                    continue
+                bad = _judge(w, label)
+                if bad:
+                    return result(VIOL, cls=[what], events=ev, key="C06:%s/upstream-test" % bad[0].split(":")[1].split("/")[0], what=bad[1],
+                                  witness={"case": case, "test": name, "params": repr(params), "sched_seed": case["seed"] + s, "traceback": bad[2]})
+                sigs.add(hash(w.arrival_signature()))
+        if notes and ev["upstream_tests_run"] == ev["upstream_assertion_failures"]:
+            return result(SKIP, cls=[what], events=ev, what="every upstream test stopped at one of its own assertions under %d simulated ranks (not a C06 verdict): %s" % (P, " || ".join(notes[:3])))
+        # runs that stopped at an assertion of the upstream test itself (e.g. pytest.warns, whose warning filter state is
+        # process-global and therefore shared by simulated ranks) carry no C06 verdict; they are counted and listed
+        return result(HELD, cls=[what], events=ev, n_eval=ev["upstream_tests_run"] - ev["upstream_assertion_failures"], sched=["%s:%d" % (what, x) for x in sigs],
+                      extra={"upstream_assertion_notes": notes[:5]} if notes else None)
+    finally:
+        os.chdir(old)
+        shutil.rmtree(tmp, ignore_errors=True)
 
 
 def _params_for(case, tmp=None):
